@@ -489,7 +489,13 @@ AnyP::Uri::parse(const HttpRequestMethod& method, const SBuf &rawUrl)
             if (t && *t == ':') {
                 *t = '\0';
                 ++t;
-                foundPort = atoi(t);
+                // same port syntax and range as for CONNECT targets: 1*DIGIT
+                // without a leading zero, 1..65535, and nothing after it
+                const SBuf portText(t);
+                Parser::Tokenizer portTok(portText);
+                foundPort = parsePort(portTok);
+                if (!portTok.atEnd())
+                    throw TextException("garbage after port in URI authority", Here());
             }
         }
 
